@@ -1,0 +1,14 @@
+//go:build verif
+
+package nsx
+
+// Contracts for the deductive checker in /verif (comment-only file).
+
+//vc:only[C11] (*net/http.Client).Do in (*State).sendRequest
+//vc:only[C11] (*net/http.Client).PostForm in (*State).LoadDevice$1
+
+//vc:func (*State).sendRequest
+//vc:  requires[C11] !isCompareRun || method == "GET"
+
+//vc:func (*State).ApplyCommands
+//vc:  requires[C11] !isCompareRun
